@@ -5,13 +5,13 @@
 # One line per seed in /tmp/reseed3-<lane>.log.
 cd /verif/seeded || exit 1
 names=($(ls -d ${1:-*}/ | tr -d /))
-lanes=(1 2 3 5 6 7 8 9 10 11)
-for li in 0 1 2 3 4 5 6 7 8 9; do
+lanes=(1 2 3 5 6 7)
+for li in 0 1 2 3 4 5; do
   lane=${lanes[$li]}
   (
     i=0
     for n in "${names[@]}"; do
-      i=$((i+1)); [ $((i % 10)) -eq $li ] || continue
+      i=$((i+1)); [ $((i % 6)) -eq $li ] || continue
       P=$(python3 -c "import json;print(json.load(open('/verif/seeded/$n/meta.json'))['property'])" 2>/dev/null) || continue
       CH=$(python3 -c "import json;m=json.load(open('/verif/seeded/$n/meta.json'));print(' '.join(sorted(set(list(m.get('check_exit_codes',{}).keys())+[m['property']]))))" 2>/dev/null)
       out=$(SKIP_CONFIRM=1 UPDATE_META=1 /verif/seedtest2.sh $lane /verif/seeded/$n $n $P $CH 2>&1)
